@@ -181,6 +181,20 @@ EXTRA_TEXT3 = {
  'C18': 'is_magic / escape are compared between bytes and str over drive and UNC spellings; absolute names are filtered against `/**/...` patterns under REALPATH.',
  'C19': 'A lazy iglob(dir_fd=...) that is partly consumed must leave descriptors the caller opens in the meantime alone.',
 }
+EXTRA_TEXT4 = {
+ 'C01': 'The bracket table is also run under SPLIT for sets that hold a bar.',
+ 'C05': 'A quarter of the multi-segment cases write every separator escaped.',
+ 'C06': 'Clause (d) also gives the root as a descriptor of the parent plus a relative root_dir.',
+ 'C07': 'The fixed table also runs as bytes lists and tuples.',
+ 'C09': 'On the file system a name that is_magic() calls plain, used as it stands, must select exactly that entry.',
+ 'C15': 'A consumer that kills right after receiving an on_error value must still see the errored file routed to on_skip.',
+ 'C16': 'Absolute alternatives that only appear after BRACE / SPLIT expansion must raise ValueError in Path.glob / rglob.',
+ 'C17': 'Segment patterns that start with a written dot are run under NODOTDIR / DOTGLOB against names whose `.` / `..` segment ends with either separator.',
+ 'C18': 'Tilde patterns (inclusions and inline exclusions) are compared between bytes and str with HOME set to the tree.',
+ 'C20': 'Adjacent escapes that decode to a high and a low surrogate must stay two characters.',
+}
+for _k, _v in EXTRA_TEXT4.items():
+    EXTRA_TEXT3[_k] = (EXTRA_TEXT3.get(_k, '') + ' ' + _v).strip()
 for _k, _v in EXTRA_TEXT.items():
     CHECKS[_k]['text'] = CHECKS[_k]['text'].rstrip() + ' ' + _v
 for _k, _v in EXTRA_TEXT3.items():
